@@ -7,6 +7,7 @@ import (
 	"fmt"
 	"sort"
 	"strings"
+	"sync"
 )
 
 // Sort names used in generated SMT.
@@ -31,9 +32,105 @@ func (t Term) IsZero() bool   { return t.S == "" }
 
 func mk(sort, s string) Term { return Term{S: s, Sort: sort} }
 
+// selectors of declared struct datatypes: selector name -> (constructor, field index);
+// used to fold (sel (ctor a b c)) to the component while terms are built.
+type selInfo struct {
+	ctor string
+	idx  int
+}
+
+var (
+	selMu    sync.RWMutex
+	selTable = map[string]selInfo{}
+)
+
+func registerSelector(sel, ctor string, idx int) {
+	selMu.Lock()
+	selTable[sel] = selInfo{ctor, idx}
+	selMu.Unlock()
+}
+
+// splitTop splits "(head a1 a2 ...)" into head and its top-level arguments.
+func sexpParts(s string) (string, []string) {
+	if len(s) < 2 || s[0] != '(' || s[len(s)-1] != ')' {
+		return s, nil
+	}
+	body := s[1 : len(s)-1]
+	var parts []string
+	depth, start := 0, 0
+	inBar := false
+	for i := 0; i < len(body); i++ {
+		c := body[i]
+		switch {
+		case c == '|':
+			inBar = !inBar
+		case inBar:
+		case c == '(':
+			depth++
+		case c == ')':
+			depth--
+		case c == ' ' && depth == 0:
+			if i > start {
+				parts = append(parts, body[start:i])
+			}
+			start = i + 1
+		}
+	}
+	if start < len(body) {
+		parts = append(parts, body[start:])
+	}
+	if len(parts) == 0 {
+		return s, nil
+	}
+	return parts[0], parts[1:]
+}
+
+func isIntLiteral(s string) bool {
+	if s == "" {
+		return false
+	}
+	for _, c := range s {
+		if c < '0' || c > '9' {
+			return false
+		}
+	}
+	return true
+}
+
 func app(sort, f string, args ...Term) Term {
 	if len(args) == 0 {
 		return Term{S: f, Sort: sort}
+	}
+	// fold projections of constructors and reads of syntactically identical writes
+	if len(args) == 1 && strings.HasPrefix(f, "f$") && strings.HasPrefix(args[0].S, "(mk$") {
+		selMu.RLock()
+		si, ok := selTable[f]
+		selMu.RUnlock()
+		if ok {
+			if h, as := sexpParts(args[0].S); h == si.ctor && si.idx < len(as) {
+				return Term{S: as[si.idx], Sort: sort}
+			}
+		}
+	}
+	if f == "select" && len(args) == 2 {
+		cur := args[0].S
+		for strings.HasPrefix(cur, "(store ") {
+			h, as := sexpParts(cur)
+			if h != "store" || len(as) != 3 {
+				break
+			}
+			if as[1] == args[1].S {
+				return Term{S: as[2], Sort: sort}
+			}
+			if isIntLiteral(as[1]) && isIntLiteral(args[1].S) {
+				cur = as[0] // distinct literals: look through the write
+				continue
+			}
+			break
+		}
+		if cur != args[0].S {
+			return Term{S: "(select " + cur + " " + args[1].S + ")", Sort: sort}
+		}
 	}
 	var b strings.Builder
 	b.WriteByte('(')
@@ -155,7 +252,7 @@ func ite(c, a, b Term) Term {
 }
 
 func sel(arr, idx Term, elemSort string) Term { return app(elemSort, "select", arr, idx) }
-func sto(arr, idx, v Term) Term                { return app(arr.Sort, "store", arr, idx, v) }
+func sto(arr, idx, v Term) Term               { return app(arr.Sort, "store", arr, idx, v) }
 
 func arraySort(k, v string) string { return "(Array " + k + " " + v + ")" }
 
